@@ -265,8 +265,67 @@ class Interp:
                 # slot wrappers of object (and non-callables) only look at arity and types: they store the value,
                 # return NotImplemented or raise TypeError without inspecting a symbolic argument
                 return f(*args, **kwargs)
-            raise Unmodelled("symbolic argument reaches un-modelled native callable %r" % (getattr(f, "__qualname__", f),))
+            cargs, ckw = self.sample_arguments("native callable %s" % (getattr(f, "__qualname__", f),), args, kwargs)
+            return f(*cargs, **ckw)
         return f(*args, **kwargs)
+
+    SAMPLES = 6
+
+    def sample_arguments(self, what, args, kwargs):
+        """arguments of a call into native code that has no model: fixed to solver-chosen sample values (Engine.sample)"""
+        from .strings import StrVec
+        from .sbytes import SymBytes
+        from .values import SymInt, SymBool, bterm
+        import z3
+        leaves = []
+        index = {}
+        mutable = set()
+
+        def leaf(v):
+            if id(v) in index:
+                return index[id(v)]
+            if isinstance(v, StrVec):
+                ent = (v.eval, lambda c, v=v: bterm(v.eq(c)))
+            elif isinstance(v, SymInt):
+                ent = (lambda m, v=v: int(E.z3val(m, v.term)), lambda c, v=v: v.term == c)
+            elif isinstance(v, SymBool):
+                ent = (lambda m, v=v: bool(E.z3val(m, v.term)), lambda c, v=v: v.term == c)
+            elif isinstance(v, SymBytes) and v.is_plain():
+                def mk(c, v=v):
+                    ts = v.terms()
+                    return z3.And(*[t == b for t, b in zip(ts, c)]) if ts else z3.BoolVal(True)
+                ent = (lambda m, v=v: bytes(v.eval(m)), mk)
+                if v.kind == "bytearray":
+                    mutable.add(len(leaves))
+            else:
+                raise Unmodelled("symbolic %s reaches un-modelled %s" % (type(v).__name__, what))
+            index[id(v)] = len(leaves)
+            leaves.append(ent)
+            return index[id(v)]
+
+        def walk(x, depth=0):
+            if isinstance(x, Sym):
+                return ("leaf", leaf(x))
+            if depth < 4 and isinstance(x, (list, tuple)) and contains_sym(x):
+                return ("seq", type(x), [walk(y, depth + 1) for y in x])
+            if depth < 4 and isinstance(x, dict) and contains_sym(x):
+                return ("dict", [(walk(k, depth + 1), walk(y, depth + 1)) for k, y in x.items()])
+            if contains_sym(x):
+                raise Unmodelled("symbolic value nested in a %s reaches un-modelled %s" % (type(x).__name__, what))
+            return ("const", x)
+
+        plan = ([walk(a) for a in args], [(k, walk(v)) for k, v in (kwargs or {}).items()])
+        vals = E.current().sample(leaves, self.SAMPLES, what)
+
+        def build(t):
+            if t[0] == "leaf":
+                return bytearray(vals[t[1]]) if t[1] in mutable else vals[t[1]]
+            if t[0] == "const":
+                return t[1]
+            if t[0] == "seq":
+                return t[1](build(y) for y in t[2])
+            return {build(k): build(y) for k, y in t[1]}
+        return [build(t) for t in plan[0]], {k: build(t) for k, t in plan[1]}
 
     def _find_method_model(self, tp, name):
         for k in tp.__mro__:
@@ -303,7 +362,8 @@ class Interp:
             if symbolic and not (isinstance(cls, type) and issubclass(cls, BaseException)):
                 if cls in (list, tuple, dict) and not any(isinstance(a, Sym) for a in args):
                     return cls(*args, **kwargs)
-                raise Unmodelled("symbolic argument reaches constructor of native class %s" % cls.__qualname__)
+                cargs, ckw = self.sample_arguments("constructor of native class %s" % cls.__qualname__, args, kwargs)
+                return cls(*cargs, **ckw)
             return cls(*args, **kwargs)
         if type(cls) is not type and type(cls).__call__ is not type.__call__:
             return cls(*args, **kwargs)
